@@ -118,6 +118,23 @@ theorem latency_records_per_client_and_task (cfg : Cfg) (hf : cfg.factor = 1) (i
   have hp := records_exact_at_end cfg hf evs s h hd.1 hd.2.1 hd.2.2.1 hd.2.2.2.1 hd.2.2.2.2
   rw [← hp.countP_eq, ← latency_count]
 
+/-- **periodic_postprocessing_never_starves** — the driver's timer grows by the wake-up interval `w > 0` per wake-up of an
+    unfinished race and post-processing fires when it reaches the interval `p`: from ANY timer value below `p`, within
+    `⌈p / w⌉` wake-ups post-processing has fired (raw samples never wait longer than that), and the timer stays below `p`. -/
+theorem periodic_postprocessing_never_starves (w p : Nat) (hw : 0 < w) (hp : 0 < p) (t : Nat) (ht : t < p) :
+    1 ≤ (wakes w p ((p + w - 1) / w) t).2 ∧ ∀ n, (wakes w p n t).1 < p := by
+  refine ⟨wakes_fire_within w p _ t ht ?_, fun n => wakes_timer_lt w p hp n t ht⟩
+  have : p ≤ (p + w - 1) / w * w := by
+    have h1 := Nat.div_add_mod (p + w - 1) w
+    have h2 := Nat.mod_lt (p + w - 1) hw
+    have h3 : w * ((p + w - 1) / w) = (p + w - 1) / w * w := Nat.mul_comm _ _
+    omega
+  omega
+
+/-- … and not more often: starting from a fresh timer, no post-processing before the interval is reached -/
+theorem periodic_postprocessing_not_before (w p n : Nat) (h : n * w < p) : (wakes w p n 0).2 = 0 :=
+  (wakes_not_before w p n 0 (by omega)).1
+
 /-! ### non-vacuity (tests, labelled as tests) -/
 
 example : (run ⟨2, 2⟩ init [.request 0 1, .request 0 2, .request 0 3, .request 1 4, .ship 0, .deliverU 0, .ship 1, .deliverU 1,
@@ -128,5 +145,7 @@ example : flush (⟨[(1, 7), (0, 8), (1, 9)], [(0, [5])], [], [4], [[3]], [], []
     [.ship 1, .ship 0, .deliverU 0, .deliverU 1, .deliverU 0, .postprocess, .handover, .deliverR, .deliverR] := by decide
 
 example : (recordsOf ⟨2, "t", "t", "composite", true, [("a", "search"), ("b", "search")]⟩).length = 5 := by decide
+
+example : wakes 1 30 29 0 = (29, 0) ∧ wakes 1 30 30 0 = (0, 1) ∧ wakes 1 30 95 0 = (5, 3) ∧ wakes 2 5 7 0 = (2, 2) := by decide +kernel
 
 end C07
